@@ -6,7 +6,7 @@
    c08-sole-owner-reclaim). *)
 From stdpp Require Import gmap.
 From Coq Require Import NArith.
-From BV Require Import Base Heap HeapLaws.
+From BV Require Import Base Heap HeapLaws HeapWF HeapWFOps HeapWFMain.
 
 Theorem C08_static_owned_never_unique : forall k o l arc s e,
   bytes_is_unique_rep (HB k o l VStatic arc) s e = OK false s e /\ bytes_is_unique_rep (HB k o l VOwned arc) s e = OK false s e.
@@ -18,6 +18,13 @@ Theorem C08_try_into_mut_ok : forall orc h x s e, hs s !! h = Some x -> bytes_is
   hstep orc (OBTryIntoMut h) s e = hstep orc (OBIntoMut h) s e.
 Proof. exact try_into_mut_ok_is_into_mut. Qed.
 
+(* from the global invariant (C02.v): in every reachable state the reference count is the number of handles holding the storage, so a shared
+   Bytes reports unique exactly when no other handle holds its storage *)
+Theorem C08_is_unique_iff_sole_holder : forall orcs n s h k ofs len arc b s' e e', reach orcs n s -> hs s !! h = Some (HB (Some k) ofs len VShared arc) ->
+  bytes_is_unique_rep (HB (Some k) ofs len VShared arc) s e = OK b s' e' -> (b = true <-> refs (hs s) k = 1%nat).
+Proof. intros orcs n s h k ofs len arc b s' e e' Hr. apply wf_is_unique_iff_sole. by eapply reach_wf. Qed.
+
 Print Assumptions C08_static_owned_never_unique.
 Print Assumptions C08_try_into_mut_err.
 Print Assumptions C08_try_into_mut_ok.
+Print Assumptions C08_is_unique_iff_sole_holder.
